@@ -358,6 +358,12 @@ def gen(rng, tier):
     cs += byte_mutations(rng, tier)
     cs += randoms(rng, tier)
     cs += exhaustive_small(tier)
+    # a byte >= 0x80 at every offset of a long field value (the error path formats the offending text: a cut at a
+    # fixed length must not land inside a character), also as part of a well-formed UTF-8 sequence
+    for off in list(range(0, 40, 7)) + list(range(60, 140)) + [255, 256, 999, 1000, 1023, 1024]:
+        for hi in (b"\xe9", b"\xc3\xa9", b"\xf0\x9f\x98\x80", b"\x80"):
+            val = b"a" * off + hi + b"tail" * 30
+            cs.append(try_case(8192, 0, b"GET / HTTP/1.1\r\nx-v: " + val + b"\r\n\r\nR", ["high-byte-in-long-value"]))
     return cs
 
 
